@@ -20,3 +20,14 @@ Theorem C17_old_duplicates_refuted :
     | None => False
     end.
 Proof. exists [[1;2;3]], 2. vm_compute. discriminate. Qed.
+
+(* wsConn.Write before the repair: a data frame went out in two writes with no lock, the PONG of the reading side
+   between them - what the client reads is neither order of the two frames *)
+From Coq Require Import NArith.
+From VMQ Require Import model.WsOut proofs.WsOutProofs.
+Theorem C17_split_writes_refuted :
+  exists (d p : frame) l, small d /\ small p /\
+    Interleave (split d) [whole p] l /\
+    parse 2 (concat l) <> Some [d; p] /\ parse 2 (concat l) <> Some [p; d].
+Proof. exact split_writes_refuted. Qed.
+Print Assumptions C17_split_writes_refuted.
